@@ -2043,6 +2043,17 @@ class Interp:
                 ts = [self.truth_of(x) for x in items]
                 if all(t is not None for t in ts):
                     return Const(any(ts) if name == "any" else all(ts))
+        if name in ("min", "max") and len(args) == 1 and set(kwargs) <= {"default"}:
+            items = self.concrete_iter(args[0])
+            if items is not None:
+                if not items:
+                    if "default" in kwargs:
+                        return kwargs["default"]
+                    self.emit("raise", node, value=Term("exc", "ValueError"))
+                    raise _Raise(Term("exc", "ValueError"), node)
+                if all(isinstance(x, Const) and isinstance(x.v, (int, float, str)) for x in items):
+                    vs = [x.v for x in items]
+                    return Const(min(vs) if name == "min" else max(vs))
         if name in ("min", "max") and len(args) == 2:
             if all(isinstance(a, Const) for a in args):
                 return Const(min(args[0].v, args[1].v) if name == "min" else max(args[0].v, args[1].v))
